@@ -10,7 +10,7 @@
    Framing: TranscodeProof.v (dec_many / jdec_many: k successive calls of a
    long-lived decoder over one stream). *)
 From Coq Require Import List ZArith.
-Require Import Tok CborSpec CborEnc CborDec CborRoundtrip JsonEnc JsonDec GoVal Marshal Unmarshal Reuse JsonNumProof JsonEncProof TranscodeProof.
+Require Import Tok CborSpec CborEnc CborDec CborRoundtrip JsonEnc JsonDec GoVal Marshal Unmarshal Reuse Writer ReuseFault ReuseFaultProof JsonNumProof JsonEncProof TranscodeProof.
 Import ListNotations.
 Open Scope Z_scope.
 
@@ -23,6 +23,25 @@ Proof. reflexivity. Qed.
 Theorem C17_json_decoder_reuse : forall s, jdec_call s = jdec_run (jdinp s).
 Proof. reflexivity. Qed.
 Print Assumptions C17_json_decoder_reuse.
+
+(* Histories with failing writers (ReuseFault.v): the encoders remember the first failed or short Write and return it from
+   every Step that wrote; Reset forgets it.  Whatever the earlier calls of one long-lived encoder did — finished, were
+   rejected, were abandoned, or failed in the writer (any fault plan per call) — each call ends exactly as it does on a
+   fresh encoder with that call's writer. *)
+Theorem C17_cbor_encoder_history_with_write_faults : forall calls st,
+  history true st calls = map (fun c => cbor_write_faulty (fst c) (snd c)) calls.
+Proof. exact history_equals_fresh. Qed.
+Theorem C17_json_encoder_history_with_write_faults : forall sh o calls st,
+  jhistory sh o true st calls = map (fun c => json_write_faulty sh o (fst c) (snd c)) calls.
+Proof. exact jhistory_equals_fresh. Qed.
+Print Assumptions C17_json_encoder_history_with_write_faults.
+(* the statement is false of a Reset that keeps the remembered error (the cbor encoder before the fix of D24) *)
+Example C17_reset_must_forget_the_write_error :
+  let calls := [(WPlan 1 false WErr, [Tok (Int 1) None]); (healthy, [Tok (Int 1) None])] in
+  history false (enc_init, false) calls = [WReported 1; WReported 1] /\
+  history true (enc_init, false) calls = [WReported 1; WFinished 1] /\
+  map (fun c => cbor_write_faulty (fst c) (snd c)) calls = [WReported 1; WFinished 1].
+Proof. exact history_without_clearing_refuted. Qed.
 
 (* in particular after a call that failed in the middle of a nested item *)
 Example C17_after_failed_call :
